@@ -4,6 +4,7 @@ reloaded through the library.  One NDJSON line per history for Trace_ArchiveDelt
 
  usage: w_c06.py <out.ndjson> <seed> <nhist> <nsnap> <reload all|some> <dir>
 """
+import ctypes
 import json
 import os
 import random
@@ -74,7 +75,8 @@ def _do_op(sim, rng, log):
             elif r < 0.70:
                 # (with variational particles only integrators whose gravity routine implements the variational
                 #  equations are in contract: MERCURIUS / TRACE gravity terminates the process otherwise)
-                name = rng.choice(INTEGRATORS if sim.N_var == 0 else ["whfast", "ias15", "bs", "leapfrog"])
+                wh_ok = sim.ri_whfast.coordinates == "jacobi"      # WHFast supports variational particles in Jacobi coordinates only
+                name = rng.choice(INTEGRATORS if sim.N_var == 0 else (["whfast"] if wh_ok else []) + ["ias15", "bs", "leapfrog"])
                 sim.integrator = name
                 log.append(["integrator", name])
             elif r < 0.78:
@@ -86,14 +88,14 @@ def _do_op(sim, rng, log):
                     sim.dt *= rng.choice([0.5, 2.0, 1.25])
                 elif which == 1:
                     sim.ri_whfast.safe_mode = rng.randrange(2)
-                elif which == 2:
+                elif which == 2 and sim.N_var == 0:
                     sim.ri_whfast.coordinates = rng.choice(["jacobi", "democraticheliocentric", "whds", "barycentric"])
                 elif which == 3:
                     sim.ri_ias15.epsilon = rng.choice([1e-9, 1e-8, 0.0])
                 else:
                     sim.ri_mercurius.safe_mode = rng.randrange(2)
                 log.append(["option", which])
-            elif r < 0.90 and sim.N >= 2 and sim.N_var == 0 and sim.integrator in ("ias15", "whfast", "bs"):
+            elif r < 0.90 and sim.N >= 2 and sim.N_var == 0 and sim.integrator in ("ias15", "whfast", "bs") and (sim.integrator != "whfast" or sim.ri_whfast.coordinates == "jacobi"):
                 sim.add_variation()
                 log.append(["add_variation"])
             elif r < 0.93:
@@ -104,6 +106,22 @@ def _do_op(sim, rng, log):
                 log.append(["noop"])
         except (RuntimeError, ValueError, AttributeError) as e:
             log.append(["op_error", str(e)[:80]])
+
+
+_CNT = None
+
+
+def counts(sim):
+    """element counts of all persisted arrays as they stand in memory (the stream does not show the count of an empty array)"""
+    global _CNT
+    if _CNT is None:
+        seen = {}
+        for d in P.descriptors():
+            if d["offset_N"] and d["offset_N"] not in seen:
+                seen[d["offset_N"]] = d["name"]
+        _CNT = sorted(seen.items())
+    base = ctypes.addressof(sim)
+    return [[nm, ctypes.c_uint.from_address(base + off).value] for off, nm in _CNT]
 
 
 def recs(fields, intern):
@@ -119,8 +137,14 @@ def history(rng, fn, nsnap, reload_all):
     ghosts = []
     oplog = []
     tlist = []
+    clist = []
     for k in range(nsnap):
-        if k > 0:
+        # (operations also before the first snapshot: the first snapshot should already hold integrator arrays that can
+        #  later shrink, grow or disappear)
+        if k > 0 or rng.random() < 0.7:
+            if k == 0 and sim.N > 0:
+                sim.steps(rng.randrange(1, 4))
+                oplog.append(["steps-before-first"])
             for _ in range(rng.randrange(0, 4)):
                 do_op(sim, rng, oplog)
         with warnings.catch_warnings():
@@ -136,6 +160,7 @@ def history(rng, fn, nsnap, reload_all):
                 break
         ghosts.append(recs(lf, intern))
         tlist.append(t_live)
+        clist.append(counts(sim))
         buf = open(fn, "rb").read()
         blobs = P.parse_archive(buf)
         ev = {"k": k, "ops": oplog, "cur": ghosts[k], "nblobs_file": len([b for b in blobs if b["complete"] and b["trailer"] is not None]),
@@ -158,6 +183,9 @@ def history(rng, fn, nsnap, reload_all):
                 which = range(k + 1) if reload_all else sorted({k, rng.randrange(k + 1)})
                 for j in which:
                     s2 = sa[j]
+                    if counts(s2) != clist[j]:
+                        ev["t_ok"] = False
+                        ev["count_mismatch"] = [[a, b] for a, b in zip(counts(s2), clist[j]) if a != b][:4]
                     lf2, _, _ = P.parse_fields(P.stream_bytes(s2), P.HEADER)
                     loaded.append([j, recs(lf2, intern)])
                 del sa
@@ -171,7 +199,50 @@ def history(rng, fn, nsnap, reload_all):
     return events
 
 
+def long_archive(out, d):
+    """one archive with more snapshots than the reader's initial index (1024 entries): manual appends followed by step-count snapshots"""
+    fn = os.path.join(d, "long_%d.bin" % os.getpid())
+    if os.path.exists(fn):
+        os.remove(fn)
+    sim = rebound.Simulation()
+    sim.add(m=1.0)
+    sim.add(m=1e-3, a=1.0, e=0.1)
+    sim.integrator = "whfast"
+    sim.dt = 0.01
+    sim.t = 3.0
+    ts = []
+    for k in range(700):
+        sim.save_to_file(fn)
+        ts.append(sim.t)
+        sim.steps(1 + k % 3)
+    sim.save_to_file(fn, step=2)         # automatic snapshots every 2 steps from here on (the first one right away)
+    first_auto = sim.t
+    sim.integrate(sim.t + 2 * 450 * sim.dt - sim.dt / 2, exact_finish_time=0)      # 900 steps; snapshots are taken from integrate()'s loop
+    ts += [first_auto + 0.0] * 0
+    res = {"written_manual": 700}
+    with warnings.catch_warnings():
+        warnings.simplefilter("ignore")
+        sa = rebound.Simulationarchive(fn)
+        n = len(sa)
+        res["n"] = n
+        res["expected_n"] = 700 + 451
+        idx = [sa.t[k] for k in range(n)]
+        res["manual_times_ok"] = idx[:700] == ts
+        res["monotone"] = all(idx[k] < idx[k + 1] for k in range(n - 1))
+        res["tmax_is_last_state"] = (sa.tmax == sim.t) and (n > 0 and sa[-1].t == sim.t)
+        res["default_load_is_last"] = rebound.Simulation(fn).t == sim.t
+        probe = [0, 699, 700, 1022, 1023, 1024, 1025, n - 1]
+        res["loaded_times_ok"] = all(0 <= k < n and sa[k].t == idx[k] for k in probe)
+        res["sample"] = {"n": n, "t_last_live": sim.t, "t_last_index": idx[-1] if idx else None}
+        del sa
+    os.remove(fn)
+    json.dump(res, open(out, "w"))
+
+
 if __name__ == "__main__":
+    if sys.argv[1] == "long":
+        long_archive(sys.argv[2], sys.argv[3])
+        sys.exit(0)
     out, seed, nhist, nsnap, mode, d = sys.argv[1], int(sys.argv[2]), int(sys.argv[3]), int(sys.argv[4]), sys.argv[5], sys.argv[6]
     rng = random.Random(seed)
     PROG = open(out + ".progress", "w")
